@@ -754,6 +754,40 @@ func init() {
 			setRes(st, in, Sub(timeExt(args[0]), timeExt(args[1])))
 			return true
 		},
+		"bytes.Index": func(ex *Exec, st *State, args []Value, in *ssa.Call, pos token.Pos) bool {
+			// exact first occurrence of a pattern of concrete length in a slice of bounded length
+			w, v := args[0].(SliceV), args[1].(SliceV)
+			if !v.Len.IsConst() {
+				panic("bytes.Index with a pattern of symbolic length")
+			}
+			vl := int(v.Len.Val)
+			bound := 96
+			if w.Len.IsConst() {
+				bound = int(w.Len.Val)
+			} else if !ex.feasible(st, Ule(w.Len, Const(64, uint64(bound)))) || ex.feasible(st, Ult(Const(64, uint64(bound)), w.Len)) {
+				panic("bytes.Index over a slice that may be longer than 96 bytes")
+			}
+			if w.Obj == 0 || vl == 0 {
+				if vl == 0 {
+					setRes(st, in, Const(64, 0))
+				} else {
+					setRes(st, in, Const(64, ^uint64(0)))
+				}
+				return true
+			}
+			wa, _ := ex.sliceArr(st, w)
+			va, _ := ex.sliceArr(st, v)
+			var res *Term = Const(64, ^uint64(0))
+			for i := bound - vl; i >= 0; i-- {
+				m := Ule(Const(64, uint64(i+vl)), w.Len)
+				for k := 0; k < vl; k++ {
+					m = And(m, Eq(Select(wa.A, Add(w.Off, Const(64, uint64(i+k)))), Select(va.A, Add(v.Off, Const(64, uint64(k))))))
+				}
+				res = Ite(m, Const(64, uint64(i)), res)
+			}
+			setRes(st, in, res)
+			return true
+		},
 		"bytes.Equal": func(ex *Exec, st *State, args []Value, in *ssa.Call, pos token.Pos) bool {
 			a, b := args[0].(SliceV), args[1].(SliceV)
 			if !a.Len.IsConst() && b.Len.IsConst() {
